@@ -94,6 +94,12 @@ func ForceSelfClosingTags(b []byte) []byte {
 			continue
 		}
 
+		if bytes.HasSuffix(openingTagContents, []byte("/")) {
+			// an already "self closed" tag with attributes, followed by the end tag of a parent that
+			// happens to have the same name: the end tag belongs to the parent and must stay
+			continue
+		}
+
 		b = bytes.ReplaceAll(
 			b,
 			fullMatch,
